@@ -523,10 +523,23 @@ Definition c18_check_estimate (shape N T prec W B : Z) : bool :=
   else if shape =? 2 then estimate_repaired N (zlen (dec N)) W =? B
   else true.
 
+(* what Tree.as_newick itself returned *)
+Inductive out_obs : Type := OutStr (s : str) | OutOverflow | OutSkip.
+
 Definition c18_check_newick (a : ctree) (N : Z) (t : rtree) (rp : Z)
            (toks : list ((Z * Z) * str)) (l : labspec) (ibl : bool) (prec T : Z)
-           (fast : option fast_obs) (general : str) (shape W : Z) : bool :=
+           (fast : option fast_obs) (general : str) (shape W : Z)
+           (whole_leaves : list Z) (out : out_obs) : bool :=
   let pn := tok_print toks in
+  (* path choice of Tree.as_newick (pinned formula only) *)
+  (if shape =? 1 then
+     match out with
+     | OutStr s => res_str_eqb (as_newick _ tok_sub pn tok_tm a N t whole_leaves l ibl prec T) s
+     | OutOverflow => res_is_err (as_newick _ tok_sub pn tok_tm a N t whole_leaves l ibl prec T)
+                                 c18_err_buffer_overflow
+     | OutSkip => true
+     end
+   else true) &&
   let lab := match l with LabMs => lab_ms_of (leaf_ids t) | _ => lab_fn a [] l end in
   let ms := match l with LabMs => true | _ => false end in
   repb a rp t && nodupb (ids t) && negb (memb rp (ids t)) &&
